@@ -1,6 +1,8 @@
 pub mod compat;
 pub mod eng;
 pub mod peer;
+pub mod rpq;
+pub mod sched;
 pub mod script;
 pub mod util;
 pub mod wire;
